@@ -185,15 +185,18 @@ int ezc3d::ParametersNS::GroupNS::Parameter::read(ezc3d::c3d &file, int nbCharIn
     if (dataLength > 0xFFFF || nbValues > 0xFFFF)
         throw std::ios_base::failure ("Parameter data are larger than a parameter can hold");
 
-    // Read the data for the parameters
-    if (_data_type == DATA_TYPE::CHAR)
-        file.readParam(_dimension, _param_data_string);
-    else if (_data_type == DATA_TYPE::BYTE)
-        file.readParam(static_cast<unsigned int>(_data_type), _dimension, _param_data_int);
-    else if (_data_type == DATA_TYPE::INT)
-        file.readParam(static_cast<unsigned int>(_data_type), _dimension, _param_data_int);
-    else if (_data_type == DATA_TYPE::FLOAT)
-        file.readParam(_dimension, _param_data_float);
+    // Read the data for the parameters (a dimension of 0 means that there is no value:
+    // nothing to read and no reason to walk through the other dimensions)
+    if (nbValues != 0) {
+        if (_data_type == DATA_TYPE::CHAR)
+            file.readParam(_dimension, _param_data_string);
+        else if (_data_type == DATA_TYPE::BYTE)
+            file.readParam(static_cast<unsigned int>(_data_type), _dimension, _param_data_int);
+        else if (_data_type == DATA_TYPE::INT)
+            file.readParam(static_cast<unsigned int>(_data_type), _dimension, _param_data_int);
+        else if (_data_type == DATA_TYPE::FLOAT)
+            file.readParam(_dimension, _param_data_float);
+    }
 
 
     // Byte 5+nbCharInName ==> Number of characters in group description
